@@ -2,12 +2,12 @@ PROP = dict(
     gens=[dict(tool="genfootprint", out="GenFootprint.v", args=["{repo}"])],
     drivers=[
         # callbacks record goroutine identity; brackets replayed through the model (run_footprint)
-        dict(cmd="drv-race", family="footprint", args=["-mode", "confine"],
+        dict(cmd="drv-race", family="footprint", netns=True, args=["-mode", "confine"],
              timeout={"quick": 600, "thorough": 1800}),
         # API storm under the race detector, both connection registries (oracle only)
-        dict(cmd="drv-race", variant="storm", corpus_family="race", race=True, args=["-mode", "storm"],
+        dict(cmd="drv-race", variant="storm", corpus_family="race", netns=True, race=True, args=["-mode", "storm"],
              timeout={"quick": 900, "thorough": 3000}),
-        dict(cmd="drv-race", variant="storm-gcopt", corpus_family="race", race=True, tags="verif gc_opt",
+        dict(cmd="drv-race", variant="storm-gcopt", corpus_family="race", netns=True, race=True, tags="verif gc_opt",
              args=["-mode", "storm", "-light"], timeout={"quick": 900, "thorough": 3000}),
     ],
     rule="(a) confinement: one case = one real multi-loop engine run (2-4 loops; cells reuse-port x edge-triggered x load "
